@@ -18,6 +18,11 @@ class Inject(KeyboardInterrupt):
     pass
 
 
+class InjectMemoryError(MemoryError):
+    """an allocation that fails at a statement: unlike a KeyboardInterrupt it IS an Exception, so
+    a handler written for something else may swallow it"""
+
+
 class Failpoints:
     def __init__(self, exclude=None, c_returns=False):
         self.c_returns = c_returns      # also crash right after a C function called from the code returns
@@ -25,6 +30,7 @@ class Failpoints:
         self.tool = None
         self.root = os.path.join(os.path.realpath(env.REPO), "curtsies") + os.sep
         self.armed = False
+        self.raise_class = Inject
         self.count = 0
         self.fire_at = None
         self.fire_where = None
@@ -93,7 +99,7 @@ class Failpoints:
             self.where = (os.path.basename(code.co_filename), code.co_qualname, line)
             self.fired = True
             self.armed = False
-            raise Inject("failpoint %d at %s:%s:%d" % ((self.count,) + self.where))
+            raise self.raise_class("failpoint %d at %s:%s:%d" % ((self.count,) + self.where))
         return None
 
     def _on_call(self, code, offset, callable_, arg0):
@@ -118,7 +124,7 @@ class Failpoints:
                           "after %s" % getattr(callable_, "__name__", "C call"))
             self.fired = True
             self.armed = False
-            raise Inject("failpoint %d at %s:%s:%s" % ((self.count,) + self.where))
+            raise self.raise_class("failpoint %d at %s:%s:%s" % ((self.count,) + self.where))
         return None
 
     def _nop_lines(self, code):
